@@ -189,8 +189,8 @@ func init() {
 	ops["exit"] = func(op *proto.Op, res *proto.Res) error { out.Flush(); os.Exit(0); return nil }
 	ops["kill"] = func(op *proto.Op, res *proto.Res) error {
 		out.Flush()
-		syscall.Kill(os.Getpid(), syscall.SIGKILL)
-		select {}
+		killSelf()
+		return nil
 	}
 	ops["gc"] = func(op *proto.Op, res *proto.Res) error {
 		var ms runtime.MemStats
@@ -198,6 +198,11 @@ func init() {
 		res.N = int64(ms.TotalAlloc)
 		return nil
 	}
+}
+
+func killSelf() {
+	syscall.Kill(os.Getpid(), syscall.SIGKILL)
+	select {}
 }
 
 func header() *proto.Header {
